@@ -232,3 +232,25 @@ func (b *box) cycleC(k int) {
 	b.n++ // guarded: every way here holds b.mu
 	b.cycleA(k - 1)
 }
+
+// ---- wire grammar: constant-trip-count loops are a fixed sequence
+func wireWriteLoop3(w io.Writer, a, b, c byte) error {
+	for _, x := range [...]byte{a, b, c} {
+		var buf [1]byte
+		buf[0] = x
+		if _, err := w.Write(buf[:]); err != nil {
+			return err
+		}
+	}
+	return nil
+}
+func wireRead3(r io.Reader) error {
+	var x [3]byte
+	_, err := io.ReadFull(r, x[:])
+	return err
+}
+func wireRead2(r io.Reader) error {
+	var x [2]byte
+	_, err := io.ReadFull(r, x[:])
+	return err
+}
